@@ -99,12 +99,12 @@ RULES.update({
            "sentinel scan of inactive output channels; distinct = (sample type, configuration class, channels, twin kind, history shape)",
     "C12": "case = configuration + script of 10..60 setter calls (exact bounds, 1..5-ulp neighbours inside and outside, interior, exterior, NaN/inf/0/negative/subnormal; "
            "chunk sizes 0,1,max,max+1,usize::MAX,random) interleaved with processing calls on the instance and on a twin that only sees the accepted calls; "
-           "trivial = none; distinct = (sample type, configuration class, script id mod 64)",
+           "10% of the scripts go through Box<dyn VecResampler>; trivial = none; distinct = (sample type, configuration class, script id mod 64)",
     "C13": "case = valid history with 1..6 malformed calls (too few/many input or output channels, one active channel short by 1..all, mask too short/long, "
-           "also through process()) inserted at random points, lock-step twin without them; case 0 = constructor table; trivial = no malformed shape was applicable "
+           "also through process(), process_partial and process_partial_into_buffer) inserted at random points, lock-step twin without them; case 0 = constructor table; trivial = no malformed shape was applicable "
            "(e.g. zero-length requirement); distinct = (sample type, configuration class, history shape, malformed shapes)",
     "C16": "case = wrapper-heavy history (process(), process_partial(_into_buffer)(Some|None), flush tails) against a twin that only uses process_into_buffer "
-           "on explicitly zero-padded input, or Box<dyn VecResampler> against direct calls; bit-exact comparison of outputs, counts and getters per call",
+           "on explicitly zero-padded input, or Box<dyn VecResampler> against direct calls; bit-exact comparison of outputs, counts and getters per call; a panic on one side only is a violation",
     "C17": "case = (configuration, history) run on an f32 and an f64 instance with the same (f32-rounded) input; getters and returned counts compared at every step, "
            "values against K*eps32*peak, plus least-squares gain and shape residual; 15% of the cases use large sinc tables (L*N up to 3e5)",
 })
@@ -137,14 +137,16 @@ PLANS.update({
 })
 RULES.update({
     "C05": "case = one noise stream (2e3..4e4 input frames, constant ratio, optionally set once before the first call) run through two twins: two chunk sizes, FixedIn vs FixedOut, "
-           "a random set_chunk_size schedule vs constant size (sinc), or two FFT variants/(chunk, sub_chunks) pairs resolving to the same FFT block; common output prefix compared "
+           "a random set_chunk_size schedule vs constant size (sinc), exactly sized buffers vs input slices up to two blocks longer (12%), or two FFT variants/(chunk, sub_chunks) pairs resolving to the same FFT block; "
+           "a run that fails while its twin completes is a violation; common output prefix compared "
            "to an accumulated-position-rounding bound (FFT: bit-exact); Nearest modes: frames whose quantised instants (from an index-signal run of both twins) differ by one grid step "
            "are excluded and counted; trivial = the twin happened to be identical to the original",
     "C06": "case = (asynchronous configuration, history with 20-50% ratio changes across the whole permitted interval, stepped and ramped, chunk-size changes, resets) fed with the index signal; "
            "every output frame's evaluation instant is read off the output (sinc types: through the probing interpolator) and checked for monotonicity, spacing interval, immediate steps, monotone ramps, "
-           "contiguous supplied windows; trivial = no spacing could be checked (start-up only)",
+           "contiguous supplied windows; 10% through Box<dyn VecResampler>; trivial = no spacing could be checked (start-up only)",
     "C07": "case = one constant-ratio stream of up to 3e5 (quick) / 2.5e6 (thorough) calls with allocate-time buffers, 35% of them with chunk size 1..4, optional set_chunk_size schedule, "
-           "optional ratio set once; the running totals are checked after every call",
+           "optional ratio set once, 15% of the adjustable streams with a relative-ratio detour (relative(x1) .. relative(x2), accounting restarts at original*x2), 15% driven through process()/process_partial() "
+           "with the returned lengths counted and 32 accounted flush calls; the running totals are checked after every call",
     "C08": "case = polynomial resampler + (polynomial of admissible degree in Chebyshev basis | degree+1 polynomial (sensitivity probe, no verdict) | sinusoid); instants measured by an index-signal twin run",
 })
 META.update({
@@ -178,12 +180,12 @@ PLANS.update({
 })
 RULES.update({
     "C14": "case = configuration (+ optional ratio set before the first call) + Gaussian pulse at a random input position; the first moment of the whole output stream is compared with n*ratio + output_delay(); "
-           "the README recipe is executed literally on the same stream; 12% of the cases read the delay and stream through Box<dyn VecResampler>; trivial = none",
+           "the README recipe is executed literally on the same stream; 12% of the cases read the delay and stream through Box<dyn VecResampler>, 12% on an instance with an earlier life and reset(), 15% of the sinc cases under a set_chunk_size schedule; trivial = none",
     "C15": "75% kernel cases: Scalar/AVX/SSE interpolators from identical parameters, sinc_len swept over every multiple of 8 up to 512, subindices incl. first/last, slice start offsets 0..8, NaN outside the window, "
            "5 waveform styles (dynamic range 1e600 / 1e60, +-0, denormals); 25% stream cases: one resampler per kernel via new_with_interpolator plus the dispatching constructor over a random history",
     "C18": "case = 4..24 work items (configuration, history, signal, sample type) executed single-threaded (reference, twice) and then by 2/4/8/16 threads taking instances from a shared pool 1..4 calls at a time; "
            "distinct = distinct (thread count, item count, case) tuples; per-call hashes cover all output bits, counts and getters; a third of the items are sent rejected (malformed) calls between their ops, "
-           "a third carry a signal in the subnormal range of their sample type; the calling thread's MXCSR control bits are read before and after every call",
+           "a third carry a signal in the subnormal range of their sample type; the calling thread's MXCSR control bits are read before and after every call; every 8th case is a cold start (2-4 fresh child processes whose 8/16 threads, released together, construct and drive 16 instances as the first thing the process does)",
 })
 META.update({
     "C14": dict(technique="runtime monitoring: first-moment (centroid) measurement of a Gaussian pulse through the real stream vs output_delay(), README recipe executed literally",
@@ -194,7 +196,7 @@ META.update({
                 note="NEON is not compiled on x86_64 (out of reach). Miri +avx runs with Tree Borrows (the wide-load-through-element-reference idiom is flagged by Stacked Borrows only).", design="5/C15"),
     "C18": dict(technique="runtime monitoring: per-call output hashes of concurrently driven, thread-migrating instances vs a single-threaded reference; thread floating-point control word read around every call; ThreadSanitizer and Miri data-race detection on the same workload",
                 text="Exploration. Up to 16 threads construct and drive instances from a shared pool (instances migrate at call boundaries, random yields/spins); every per-call hash must equal the single-threaded reference (also with subnormal-range signals and after rejected calls), no call may leave the calling thread's floating-point control word changed, and neither TSan nor Miri may report a race.",
-                note="Schedules are sampled, not enumerated; evidence reports migrations, distinct (instance,thread) pairs and distinct per-instance thread sequences actually observed; every fourth case is a construction storm (4-16 threads constructing 40-120 small configurations at the same time), 60% of the pool cases carry sibling instances differing in one filter parameter.", design="5/C18"),
+                note="Schedules are sampled, not enumerated; evidence reports migrations, distinct (instance,thread) pairs and distinct per-instance thread sequences actually observed; every fourth case is a construction storm (4-16 threads constructing 40-120 small configurations at the same time), 60% of the pool cases carry sibling instances differing in one filter parameter; every 8th case starts fresh child processes so that lazily initialised process-wide state (CPU-feature detection) is raced at its first use.", design="5/C18"),
 })
 
 PLANS.update({
@@ -229,7 +231,7 @@ ASSUMPTIONS.update({
     "C02": ["per-component / power-sum reading of the rejection figures (figure - 3.5 dB end-to-end: two coincident components + 0.5 dB guard); FFT blocks >= 32 frames; prototype checks in f64"],
     "C05": ["constant ratio (optionally set once before the first call); tolerance = worst-case accumulated position rounding x largest slope; Nearest-mode frames whose quantised instants differ by one grid step between the twins are excluded and counted"],
     "C06": ["partial/flush calls are not part of these histories (zero padding breaks the index signal); resolution 1e-9 or 256 ulp of the instant; windows reaching past the supplied data with rounding-level weight are counted, not flagged"],
-    "C07": ["constant ratio; zero-valued input (counts do not depend on sample values)"],
+    "C07": ["constant ratio between (non-ramped) changes, accounting restarted at a change with the sum of both constants; zero-valued input (counts do not depend on sample values)"],
     "C12": ["a band of 2 ulp outside each computed bound is indeterminate (either answer accepted)"],
     "C14": ["pulse sigma >= 4/min(1, current ratio, construction ratio) input frames so that the pulse passes the (not rebuilt) anti-aliasing table intact"],
     "C15": ["AVX+FMA and SSE3 available on this CPU; Miri executes the same intrinsics with tree borrows and deterministic floats"],
